@@ -434,6 +434,6 @@ def spherical_sum(image, binning_factor=1.0):
 
     out_spc = uniform_discr(min_pt=0, max_pt=rmax, shape=n_bins,
                             impl=image.space.impl, dtype=image.space.dtype,
-                            interp="linear", axis_labels=["$r$"])
+                            axis_labels=["$r$"])
 
     return out_spc.element(rad_sum)
